@@ -25,6 +25,8 @@ CLAIMED = {
     'C08': ('TLC trace validation of the full predicate matrices vs extent-level definitions', '6/C08'),
     'C09': ('TLC trace validation vs filters/ideals and rank order', '6/C09'),
     'C10': ('TLC trace validation vs reduced labelling (object/attribute concepts)', '6/C10'),
+    'C13': ('TLC trace validation of the complete one-step relation, 2-step paths and random histories vs Definition.tla; DefSys.tla model checked (WF inductive, errors change nothing)', '6/C13'),
+    'C14': ('TLC trace validation of all pairs x derivations x follow-up edits with every live handle logged (Frame clause) vs Definition.tla', '6/C14'),
     'C16': ('TLC trace validation vs Junctors.tla (occurring truth-value combinations)', '6/C16'),
     'C18': ('TLC trace validation vs generator sets in shortlex order', '6/C18'),
     'C20': ('TLC trace validation of the parsed DOT body vs Drawing.tla', '6/C20'),
@@ -33,8 +35,6 @@ CLAIMED = {
 NOT_YET = {
     'C11': 'not built yet in this revision (Documents.tla / persistence traces are next in DESIGN.md section 12)',
     'C12': 'not built yet in this revision (text-format traces and TLA+ writers are next in DESIGN.md section 12)',
-    'C13': 'not built yet in this revision (Definition.tla transition export and replay are next in DESIGN.md section 12)',
-    'C14': 'not built yet in this revision (derivation/aliasing replay is next in DESIGN.md section 12)',
     'C15': 'not built yet in this revision (relational trace clauses are next in DESIGN.md section 12)',
     'C17': 'not built yet in this revision (joint multi-seed trace validation is next in DESIGN.md section 12)',
     'C19': 'not built yet in this revision (Validation.tla corruption enumeration is next in DESIGN.md section 12)',
@@ -87,7 +87,21 @@ def main():
 
 
 CTX_PROPS = {'C01', 'C02', 'C03', 'C04', 'C05', 'C06', 'C07', 'C08', 'C09', 'C10', 'C16', 'C18', 'C20'}
-TEXTS = {}
+TEXTS = {
+    'C13': ('Design: DefSys.tla (one action per mutator over a bounded name universe) is model checked by TLC: WF is '
+            'inductive, rejected calls change nothing, bools is well shaped. Conformance: the harness enumerates the '
+            'same universe (state and transition counts cross-checked against TLC\'s), executes every call instance '
+            'from every state on the real Definition, every 2-step path on a sample (all in the thorough tier) and '
+            'thousands of random histories; TLC validates every event against Apply() of Definition.tla: outcome '
+            'class, return value, resulting triple, unchanged-on-error, d == Definition(*d), row shape.'),
+    'C14': ('Design: derivation laws (involutions, union/intersection laws, take-all identity) are model checked on '
+            'every reachable definition of DefSys.tla. Conformance: all ordered pairs of small definitions x every '
+            'derivation choice x single follow-up edits on source, operand or result, plus random multi-handle '
+            'histories with freeze/thaw, are executed on the real library; after every call the projection of EVERY '
+            'live handle is logged and TLC checks the value of the result, that it is a new object, and the Frame '
+            'clause (no handle the call did not name changed); Context(*d).definition() round trips, context '
+            'equality, shape/fill_ratio/tostring/crc32 agreement are clauses of the same trace spec.'),
+}
 
 if __name__ == '__main__':
     main()
